@@ -187,6 +187,16 @@ CHECKS = {
         note=TB_COMMON + "Exceptions raised inside pandas/shapely/urllib for reasons outside the model are only reachable dynamically. Known findings F09c, F09list, F09np.",
         technique="Coq proof (totality of translated predicates by case analysis) + crash oracle over adversarial streams",
     ),
+    "C10": dict(
+        text=("Coq proof by computation over the global-effect skeleton of EVERY function of src/visions that writes a process-global cell (sys.stderr/stdout, warning filters, numpy error state, "
+              "pandas options, cwd), extracted from the source on every run, under a small-step semantics in which opaque code may raise or not at every point: whatever raises, every cell "
+              "holds afterwards what it held on entry (the pre-repair pattern - restoring sys.__stderr__ instead of the saved stream - is rejected by the same semantics). Independence from "
+              "enumeration order is C02's theorem. History, other typesets, fresh processes and hash seeds are decided on the implementation: random API histories with a global snapshot "
+              "after every call under a redirected stderr, probes before/after, subprocesses with different PYTHONHASHSEED."),
+        ref="DESIGN.md section 6 (C10)",
+        note=TB_COMMON + "Partial: effects inside third-party libraries, address/hash-seed dependence and dispatch registries are runtime behaviour only observable dynamically. The effect extractor is syntactic (a global write through an alias or setattr is outside it). Known finding F10b.",
+        technique="Coq computation over extracted effect programs (all raise/no-raise oracles) + history/global-snapshot/subprocess oracle",
+    ),
 }
 
 
